@@ -78,6 +78,12 @@ def _work(args):
                 classes.add(graph.edge_class(g.states[u], g.edges[u][i]))
             if drift:
                 drifts.append(drift)
+                if len(drifts) <= 3:        # bounded exploration of what the real code does after the drift point
+                    for lines in R.explore_from(drift['events'], job['wcfg'], job['cfgline'], 10000000 + tid * 1000):
+                        for ln in lines:
+                            fh.write(R.dumps(ln) + '\n')
+                        steps += len(lines) - 1
+                drift.pop('events', None)
     return path, drifts, steps, cov, len(classes)
 
 
